@@ -113,12 +113,21 @@ Section Spec.
              (combine (seq 0 (length p)) p).
 End Spec.
 
-(* validation.rs: combine_validations
-     for result in results { if let Err(mut errors) = result { all_errors.append(&mut errors) } }
-     if all_errors.is_empty() { Ok(()) } else { Err(all_errors) } *)
+(* validation.rs: combine_validations (as repaired in /repo commit 2f7c47a)
+     for result in results {
+         if let Err(mut errors) = result { failed = true; all_errors.append(&mut errors) } }
+     if failed { Err(all_errors) } else { Ok(()) } *)
 Definition result_errors {E : Type} (r : vresult E) : list E :=
   match r with VOk => [] | VErr es => es end.
+Definition result_failed {E : Type} (r : vresult E) : bool :=
+  match r with VOk => false | VErr _ => true end.
 Definition combine_validations {E : Type} (results : list (vresult E)) : vresult E :=
+  if existsb result_failed results then VErr (flat_map result_errors results) else VOk.
+
+(* the definition BEFORE commit 2f7c47a, kept only to document the regression it repaired:
+     if all_errors.is_empty() { Ok(()) } else { Err(all_errors) }
+   a failed part with an empty error list (Err(vec![])) was reported as success *)
+Definition combine_validations_old {E : Type} (results : list (vresult E)) : vresult E :=
   match flat_map result_errors results with
   | [] => VOk
   | all_errors => VErr all_errors
